@@ -159,10 +159,12 @@ var triviaPool = []string{
 	" ", "  ", "\t", "\n", " \n ", "/* c */", " /* a\n * b */ ", "// line comment\n", " // x { ; } \" '\n", "/**/", "\n\n", "/* \" ' ; { } */",
 	// comment text that starts or ends with the characters of the markers themselves
 	"/*/ x */", "/*//////\n * banner\n //////*/", "/***/", "/*/*/", "/** doc **/", "/* // */", "//\n", "///* x\n", "/* * / */", "//*/\n",
+	// characters of more than one byte before a token on the same line (columns count characters)
+	"/* Größe 日本語 😀 */", "/* é */ ",
 }
 
 // the trivia inserted in single-boundary mode rotates over these
-var boundaryTrivia = []string{" /* b */ \n\t// lc\n ", " /*/ b */ ", "\n//*/ lc\n", " /***/\t", " /*/*/ "}
+var boundaryTrivia = []string{" /* b */ \n\t// lc\n ", " /*/ b */ ", "\n//*/ lc\n", " /***/\t", " /*/*/ ", " /* Größe 日本語 */ ", "\n /* 😀é */ "}
 
 // boundary is called at every token boundary; it may emit trivia.  sepNeeded
 // forces at least one separating blank.
@@ -242,7 +244,14 @@ func encodeDouble(value string, qc int, literalBreaks bool) string {
 		case '\n':
 			prevBlank := i > 0 && (value[i-1] == ' ' || value[i-1] == '\t' || value[i-1] == '\r')
 			nextBlank := i+1 < len(value) && (value[i+1] == ' ' || value[i+1] == '\t')
-			if literalBreaks && !prevBlank && !nextBlank {
+			nextSpace := i+1 < len(value) && value[i+1] == ' '
+			if !prevBlank && nextSpace && spacesThenText(value[i+1:]) {
+				// the continuation line begins with blanks of its own: written after the indent they lie
+				// beyond the quote column and stay (an escaped break would put them next to "\n", which is
+				// outside the asserted domain)
+				b.WriteString("\n")
+				b.WriteString(strings.Repeat(" ", qc+1))
+			} else if literalBreaks && !prevBlank && !nextBlank {
 				b.WriteString("\n")
 				b.WriteString(strings.Repeat(" ", qc+1))
 			} else {
@@ -253,6 +262,15 @@ func encodeDouble(value string, qc int, literalBreaks bool) string {
 		}
 	}
 	return b.String()
+}
+
+// spacesThenText: s starts with blanks that are followed by a visible character on the same line.
+func spacesThenText(s string) bool {
+	i := 0
+	for i < len(s) && s[i] == ' ' {
+		i++
+	}
+	return i > 0 && i < len(s) && s[i] != '\n' && s[i] != '\t' && s[i] != '\r'
 }
 
 // safeForEscapedBreaks: values whose \n / \t escapes are adjacent to blanks are
@@ -302,7 +320,11 @@ func (r *renderer) arg(a string) {
 		if canBeSingle(a) {
 			opts = append(opts, 1)
 		}
-		opts = append(opts, 2, 3)
+		opts = append(opts, 2)
+		if !strings.Contains(a, "\n ") {
+			// (a cut inside the blanks that follow a line break would leave an escaped break next to blanks)
+			opts = append(opts, 3)
+		}
 		form = core.Pick(l.R, opts)
 	}
 	switch form {
